@@ -91,10 +91,17 @@ Definition ins (s : list N) (pos : N) (data : list N) : list N * ret :=
 
 Definition app_ (s : list N) (data : list N) : list N * ret := (s ++ data, RBool true).
 
+(* the documented limit of create: sizes are 32 bits wide.  A non-empty string is refused when
+   len + 1 or malloc_block + 1 does not fit in 32 bits, or when malloc_block < len and
+   len + 1 + malloc_block does not *)
+Definition create_refused (len block : N) : bool :=
+  (0 <? len)%N && ((4294967295 <=? len) || (4294967295 <=? block) || ((block <? len) && (4294967296 <=? len + 1 + block)))%N.
+
 Definition spec_step (st : sst) (o : op) : sst * ret :=
   let s := fst st in
   match o with
-  | OCreate data _ => ((data, false), RVoid)
+  | OCreate data block => if create_refused (N.of_nat (length data)) block then (st, RNull)   (* NULL: nothing replaced *)
+                          else ((data, false), RVoid)
   | OStaCreate data => ((data, true), RVoid)
   | ODuplicate => ((s, false), RVoid)
   | OLen => (st, RLen (N.of_nat (length s)))
@@ -149,9 +156,10 @@ Fixpoint spec_run (st : sst) (ops : list op) : list (sst * ret) :=
 Definition op_ok (st : sst) (o : op) : bool :=
   let n := N.of_nat (length (fst st)) in
   match o with
-  | OCreate data block => (N.of_nat (length data) + 1 + block <? 4294967296)%N
+  | OCreate data block => (N.of_nat (length data) <? 4294967296)%N && (block <? 4294967296)%N   (* WB_ULONG arguments; any values *)
   (* a second buffer / a copy is made with wbxml_buffer_create: its size computation must not wrap *)
-  | ODuplicate | OSplitWords => (n + n + 22 <? 4294967296)%N
+  | ODuplicate => (n + 1 <? 4294967296)%N
+  | OSplitWords => (n + 22 <? 4294967296)%N
   | OStrip => (n + 1 <? 4294967296)%N                 (* positions are 32-bit: end-- / end + 1 must not wrap *)
   | OInsert src _ | OAppend src | OCompare src | OSearch src _ => (N.of_nat (length src) + 22 <? 4294967296)%N
   | ODelete pos k => snd st || (n <=? pos)%N || (k =? 0)%N || (pos + k <=? n)%N
